@@ -42,6 +42,14 @@ def us(t):
     return int(t)
 
 
+def _et_any_unit(x):
+    """`x` microseconds as an EventTime; whole milliseconds (below 10^12) are given in MS: the constructor of the
+    Simulator accepts any unit and must read the same instant."""
+    if isinstance(x, int) and 0 < x < 10**12 and x % 1000 == 0:
+        return EventTime(x // 1000, EventTime.Unit.MS)
+    return et(x)
+
+
 class Watchdog(Exception):
     pass
 
@@ -369,8 +377,9 @@ class Run:
             worker_pools=self.pools,
             scheduler=self.sched,
             workload_loader=self.workload_loader,
-            loop_timeout=et(f["loop_timeout"]),
-            scheduler_frequency=et(f["scheduler_frequency"]),
+            # the same instants / durations, written in milliseconds where they are whole milliseconds
+            loop_timeout=_et_any_unit(f["loop_timeout"]),
+            scheduler_frequency=_et_any_unit(f["scheduler_frequency"]),
             _flags=self.flags,
         )
         self.workload = self.workload_loader.workload
